@@ -287,10 +287,33 @@ func r094(c *Ctx, r *R) {
 			}
 			seen[b] = true
 			for _, i := range b.Instrs {
-				if ci, ok := i.(ssa.CallInstruction); ok && callName(ci.Common()) == "builtin.delete" {
+				ci, ok := i.(ssa.CallInstruction)
+				if !ok {
+					continue
+				}
+				if callName(ci.Common()) == "builtin.delete" {
 					a := ci.Common().Args
 					if ctrMap != nil && a[0] == ctrMap && a[1] == ctrKey {
 						hasDelete = true
+					}
+					if isCounterDelete(f, ci, func(v ssa.Value) ssa.Value { return v }) {
+						hasDelete = true
+					}
+					continue
+				}
+				// a helper of the package that does it for the same peer
+				// and metric name
+				if h := ci.Common().StaticCallee(); h != nil && h.Blocks != nil && h.Pkg == f.Pkg {
+					bind := func(v ssa.Value) ssa.Value {
+						if k := paramIndexLocal(h, v); k >= 0 && k < len(ci.Common().Args) {
+							return ci.Common().Args[k]
+						}
+						return v
+					}
+					for _, hc := range callsIn(h) {
+						if callName(hc.Common()) == "builtin.delete" && isCounterDelete(f, hc, bind) {
+							hasDelete = true
+						}
 					}
 				}
 			}
@@ -531,4 +554,46 @@ func r096(c *Ctx, r *R) {
 		wa := findCalls(sa, false, "metrics.Window).Add")
 		r.Check(len(wa) == 1 && paramIndex(sa, wa[0].Common().Args[1]) == 1, "store:adds-given-metric", sa.Pos(), "the given metric is what is added to the window", "Store.Add adds something other than the given metric")
 	}
+}
+
+// isCounterDelete: the delete removes the entry of alert's metric-name
+// parameter from the per-peer counter map failedPeers[<alert's pid
+// parameter>]. resolve maps a value of the frame the delete lives in to a
+// value of alert's frame (identity inside alert, parameter binding inside a
+// helper).
+func isCounterDelete(alert *ssa.Function, del ssa.CallInstruction, resolve func(ssa.Value) ssa.Value) bool {
+	a := del.Common().Args
+	if len(a) != 2 {
+		return false
+	}
+	// key: alert's metricName (parameter 2 of (mc, pid, metricName))
+	if paramIndex(alert, resolve(a[1])) != 2 {
+		return false
+	}
+	// map: failedPeers[pid]
+	m := a[0]
+	var lk *ssa.Lookup
+	switch x := m.(type) {
+	case *ssa.Lookup:
+		lk = x
+	case *ssa.Extract:
+		lk, _ = x.Tuple.(*ssa.Lookup)
+	case *ssa.Phi:
+		// `m, ok := failedPeers[pid]; if !ok { m = make(...); failedPeers[pid] = m }`
+		for _, e := range x.Edges {
+			switch y := e.(type) {
+			case *ssa.Lookup:
+				lk = y
+			case *ssa.Extract:
+				if l2, ok := y.Tuple.(*ssa.Lookup); ok {
+					lk = l2
+				}
+			}
+		}
+	}
+	if lk == nil {
+		return false
+	}
+	fl, _ := fieldLoad(lk.X)
+	return fl != nil && fl.Name() == "failedPeers" && paramIndex(alert, resolve(lk.Index)) == 1
 }
